@@ -76,8 +76,15 @@ def run(mid, props):
                         replay = {"kind": j.get("kind"), "first": j.get("first") or j.get("broken"), "no_failing_input": "no-failing-input-found" in l}
                     except Exception as e:
                         replay = {"error": str(e)}
+            # earlier verdicts of the same check are kept (condensed) so that misses stay on record
+            for x in meta["runs"]:
+                if x["check"] == pid:
+                    meta.setdefault("history", []).append({"check": pid, "caught": x.get("caught"), "exit": x.get("exit"),
+                                                           "no_failing_input": bool(x.get("lines") and any("no-failing-input-found" in l for l in x["lines"])),
+                                                           "when": x.get("when"), "verif_commit": x.get("verif_commit")})
             meta["runs"] = [x for x in meta["runs"] if x["check"] != pid]
-            meta["runs"].append({"check": pid, "tier": "quick", "caught": caught, "exit": r.returncode, "wall_s": round(time.time() - t0, 1),
+            meta["runs"].append({"check": pid, "tier": "quick", "when": time.strftime("%Y-%m-%dT%H:%MZ", time.gmtime()),
+                                 "verif_commit": sh(["git", "-C", V, "rev-parse", "--short", "HEAD"]).stdout.strip(), "caught": caught, "exit": r.returncode, "wall_s": round(time.time() - t0, 1),
                                  "lines": [l[:400] for l in lines], "replay_excerpt": json.loads(json.dumps(replay, ensure_ascii=False)[:3000]) if replay and len(json.dumps(replay)) < 3000 else (str(replay)[:1500] if replay else None)})
             print(mid, pid, "CAUGHT" if caught else "MISSED", f"{time.time()-t0:.0f}s", [l[:160] for l in lines])
     finally:
